@@ -3,6 +3,7 @@ package main
 import (
 	"fmt"
 	"go/types"
+	"strings"
 )
 
 // explainGoal decomposes a goal into the sub-formulas whose truth values in a
@@ -91,6 +92,19 @@ func (ex *Exec) ghostRange(v *Term, lo, hi *Term) *Term {
 	if ex.ghost == 0 || v.Sort != SInt || v.IsLit() {
 		return v
 	}
+	if ex.collectFacts != nil && !mentionsBound(v) {
+		// closed term: record the range as a fact that holds of every Go heap; it is
+		// assumed where the clause is used (no clamp needed)
+		var fs []*Term
+		if lo != nil {
+			fs = append(fs, Le(lo, v))
+		}
+		if hi != nil {
+			fs = append(fs, Le(v, hi))
+		}
+		*ex.collectFacts = append(*ex.collectFacts, And(fs...))
+		return v
+	}
 	r := v
 	if hi != nil {
 		r = Ite(Gt(r, hi), hi, r)
@@ -111,4 +125,26 @@ func (ex *Exec) ghostTyped(v *Term, t types.Type) *Term {
 	}
 	h, _ := newBig(hi)
 	return ex.ghostRange(v, IntLit(0), BigLit(h))
+}
+
+// mentionsBound reports whether a term refers to a quantifier-bound variable
+// (their names carry the "!b<n>" suffix given by boundName).
+func mentionsBound(t *Term) bool {
+	leaves := map[string]string{}
+	FreeLeaves(t, leaves)
+	for name := range leaves {
+		if i := strings.LastIndex(name, "!b"); i > 0 {
+			rest := name[i+2:]
+			digits := rest != ""
+			for _, c := range rest {
+				if c < '0' || c > '9' {
+					digits = false
+				}
+			}
+			if digits {
+				return true
+			}
+		}
+	}
+	return false
 }
